@@ -63,6 +63,7 @@ type Client struct {
 	Dec    *h2wire.Decoder
 	closed bool
 	cancel context.CancelFunc
+	resume chan struct{} // non-nil while reads are paused
 }
 
 // Connect dials the stack's listener (the proxy sees addr as RemoteAddr) and
@@ -157,9 +158,36 @@ func (s *Stack) Connect(name string, addr net.Addr, h Hello) *Client {
 	return c
 }
 
+// PauseReads makes the client stop reading from its connection (a peer that does not drain its socket): with a
+// write capacity set on the proxy's side of the connection (Srv.SetWriteCap) the proxy's writes then block.
+func (c *Client) PauseReads() {
+	c.mu.Lock()
+	if c.resume == nil {
+		c.resume = make(chan struct{})
+	}
+	c.mu.Unlock()
+}
+
+// ResumeReads lets the client read again.
+func (c *Client) ResumeReads() {
+	c.mu.Lock()
+	if c.resume != nil {
+		close(c.resume)
+		c.resume = nil
+	}
+	c.mu.Unlock()
+}
+
 func (c *Client) readLoop() {
 	buf := make([]byte, 65536)
 	for {
+		c.mu.Lock()
+		r := c.resume
+		c.mu.Unlock()
+		if r != nil {
+			<-r
+			continue
+		}
 		n, err := c.TLS.Read(buf)
 		c.mu.Lock()
 		c.rbuf = append(c.rbuf, buf[:n]...)
@@ -232,6 +260,10 @@ func (c *Client) Close() {
 		return
 	}
 	c.closed = true
+	if c.resume != nil {
+		close(c.resume)
+		c.resume = nil
+	}
 	c.mu.Unlock()
 	if c.cancel != nil {
 		c.cancel()
@@ -245,6 +277,10 @@ func (c *Client) Close() {
 func (c *Client) Abort(reset error) {
 	c.mu.Lock()
 	c.closed = true
+	if c.resume != nil {
+		close(c.resume)
+		c.resume = nil
+	}
 	c.mu.Unlock()
 	if c.cancel != nil {
 		c.cancel()
